@@ -61,6 +61,13 @@ def run(P, rep, tier):
     rep.floor("C20.R2", 12)
     rep.floor("C20.R3", 18)
     rep.floor("C20.R4", 3)
+    # refinement against the pinned tree for every function the rules above looked at (rules/pinned.py)
+    import os as _os
+
+    if not _os.environ.get("MDSA_PINNED_GEN"):
+        from .pinned import refine
+
+        refine(P, rep, ctx, "C20")
 
 
 def r3_accessors(P, rep, ctx):
